@@ -1320,21 +1320,35 @@ class Adaptors:
         return None
 
     def on_next_some(self, eng, st, nextcall):
-        from interp import classes_for, ALL, fz
         src = iter_source(nextcall[3][0])
         if src is None:
             return None
         adaptors = src[-1]
         if not adaptors:
             return None
-        # element as seen by the consumer
-        ae = adapted_elem(self.closures, nextcall)
-        E = ae[0] if (ae is not None and ae[2]) else mk_field(("variant", nextcall, "Some", 1), "0", "")
-        # adaptors are listed outermost first; only filters directly producing E are handled
-        name, cargs = adaptors[0]
-        if name != "filter" or not cargs:
-            return None
-        cl = self.closures.run(cargs[0], params={2: ("ref", E)})
+        # adaptors are listed outermost first; every `filter` of the chain constrains the element it saw, i.e. the
+        # element produced by the adaptors underneath it (expressed over the underlying element U)
+        changed = False
+        for i, (name, cargs) in enumerate(adaptors):
+            if name != "filter" or not cargs:
+                continue
+            sub_it = _strip_outer(nextcall[3][0], i)
+            fake = ("call", nextcall[1], "core::iter::Iterator::next", (sub_it,))
+            ae = adapted_elem(self.closures, fake)
+            if ae is None:
+                continue
+            E = ae[0] if ae[2] else (mk_field(("variant", nextcall, "Some", 1), "0", "") if i == 0 else ae[0])
+            r = self._apply_filter(eng, st, cargs[0], E, nextcall[1])
+            if r is False:
+                return False
+            if r is not None:
+                st = r
+                changed = True
+        return st if changed else None
+
+    def _apply_filter(self, eng, st, closure, E, site):
+        from interp import classes_for, ALL, fz
+        cl = self.closures.run(closure, params={2: ("ref", E)})
         if cl is None or cl["effects"]:
             return None
         live_paths = [(pcs, ret) for pcs, ret in cl["paths"] if not (is_const(ret) and ret[1] == "0")]
@@ -1342,7 +1356,7 @@ class Adaptors:
             # a single way for the predicate to hold: everything it tested is known for this element
             pcs, ret = live_paths[0]
             for c, truth in list(pcs) + [(ret, True)]:
-                st = eng.assume(st, c, truth, nextcall[1])
+                st = eng.assume(st, c, truth, site)
                 if st is None:
                     return False
             return st
